@@ -1,3 +1,129 @@
 import Driver.Common
--- stub driver (not yet implemented)
-def main : IO Unit := Driver.run () (fun s _ => (s, "bad-op"))
+import SSV.Model.Config
+open SSV SSV.Config
+
+/-
+Line protocol of ssv_c18 (one line in, one line out).  A configuration is sent as a sequence of
+lines, each answered `ok`, and decided by `validate`:
+
+  reset
+  server name=.. proto=.. mtu=.. etcp=0/1 eudp=0/1 natsec=.. ubm=.. urb=.. usb=.. ucc=.. tun=absent|ip|domain tonly=0/1
+         tls=0/1 cert=0/1 psk=<len> upsk=none|missing|<len> pad=-|s:<text> rej=-|s:<text> fs=<n>
+  tl net=.. wt=<ns> wb=<n>                       (TCP listener of the last server)
+  ul net=.. bm=.. rb=.. sb=.. cc=.. nat=<ns>     (UDP listener of the last server)
+  client name=.. proto=.. net=.. ep=0/1 ta=0/1 ua=0/1 etcp=0/1 eudp=0/1 mtu=.. s5=0/1 s5u=<len> s5p=<len> psk=<len> ipsk=<len,len> pad=.. fs=..
+  group name=.. tp=.. tc=a,b up=.. uc=a,b
+  dns name=.. type=.. addr=0/1 tc=.. uc=..
+  router dt=.. du=.. ds=a,b ps=a,b
+  route name=.. net=.. client=.. res=.. fs=a,b fps=.. td=0/1 tds=.. tp=0/1 tps=.. tmp=0/1 tmps=.. fg=0/1 tg=0/1 tmg=0/1 nores=0/1
+  validate            -> `err <class>` | `ok <effective configuration>`
+  migrate             -> replaces the configuration by `Config.migrate` of it, answers `ok`
+  decodes             -> `1` | `0`
+
+Strings: `~` is the empty string; lists are comma separated, the empty value is the empty list.
+-/
+
+abbrev KV := List (String × String)
+
+def parseKV (fs : List String) : KV :=
+  fs.filterMap fun f =>
+    match f.splitOn "=" with
+    | [] => none
+    | [_] => none
+    | k :: rest => some (k, "=".intercalate rest)
+
+def dec (s : String) : String := if s = "~" then "" else s
+def getS (kv : KV) (k : String) : String := dec ((kv.lookup k).getD "")
+def getRaw (kv : KV) (k : String) : String := (kv.lookup k).getD ""
+def getB (kv : KV) (k : String) : Bool := getRaw kv k = "1"
+def getI (kv : KV) (k : String) : Int := ((getRaw kv k).toInt?).getD 0
+def getN (kv : KV) (k : String) : Nat := ((getRaw kv k).toNat?).getD 0
+def getL (kv : KV) (k : String) : List String :=
+  let v := getRaw kv k
+  if v = "" then [] else (v.splitOn ",").map dec
+def getNL (kv : KV) (k : String) : List Nat := (getL kv k).map (fun s => (s.toNat?).getD 0)
+def getP (kv : KV) (k : String) : Option String :=
+  let v := getRaw kv k
+  if v.startsWith "s:" then some (v.drop 2).toString else none
+
+def addrOf (s : String) : Addr := if s = "ip" then .ip else if s = "domain" then .domain else .absent
+def upskOf (s : String) : Upsk :=
+  if s = "missing" then .missing else match s.toNat? with
+    | some n => .keys n
+    | none => .none
+
+def serverOf (kv : KV) : Server :=
+  { name := getS kv "name", proto := Proto.ofString (getS kv "proto"), mtu := getI kv "mtu",
+    enableTCP := getB kv "etcp", enableUDP := getB kv "eudp", natTimeoutSec := getI kv "natsec",
+    udpBatchMode := getS kv "ubm", udpRelayBatch := getI kv "urb", udpRecvBatch := getI kv "usb", udpSendCap := getI kv "ucc",
+    tunnel := addrOf (getRaw kv "tun"), targetOnly := getB kv "tonly", httpTLS := getB kv "tls", httpCertList := getB kv "cert",
+    pskLen := getN kv "psk", upsk := upskOf (getRaw kv "upsk"), padding := getP kv "pad", reject := getP kv "rej",
+    filterSize := getN kv "fs" }
+
+def clientOf (kv : KV) : Client :=
+  { name := getS kv "name", proto := Proto.ofString (getS kv "proto"), network := getS kv "net",
+    endpoint := getB kv "ep", tcpAddr := getB kv "ta", udpAddr := getB kv "ua",
+    enableTCP := getB kv "etcp", enableUDP := getB kv "eudp", mtu := getI kv "mtu",
+    s5auth := getB kv "s5", s5userLen := getN kv "s5u", s5passLen := getN kv "s5p",
+    pskLen := getN kv "psk", ipskLens := getNL kv "ipsk", padding := getP kv "pad", filterSize := getN kv "fs" }
+
+def routeOf (kv : KV) : Route :=
+  { name := getS kv "name", network := getS kv "net", client := getS kv "client", resolver := getS kv "res",
+    fromServers := getL kv "fs", fromPrefixSets := getL kv "fps", toDomains := getB kv "td", toDomainSets := getL kv "tds",
+    toPrefixes := getB kv "tp", toPrefixSets := getL kv "tps", toMatchedPrefixes := getB kv "tmp",
+    toMatchedPrefixSets := getL kv "tmps", fromGeo := getB kv "fg", toGeo := getB kv "tg", toMatchedGeo := getB kv "tmg",
+    disableNameRes := getB kv "nores" }
+
+def onLastServer (c : Config) (f : Server → Server) : Config :=
+  match c.servers.reverse with
+  | [] => c
+  | s :: rest => { c with servers := (f s :: rest).reverse }
+
+def optS (o : Option String) : String := match o with | none => "-" | some s => s
+def optN (o : Option Nat) : String := match o with | none => "-" | some n => toString n
+
+def showUL (u : EffUL) : String := s!"{u.natTimeout}:{u.relayBatch}:{u.recvBatch}:{u.sendCap}:{u.batchMode}"
+def showServer (s : EffServer) : String :=
+  s!"{s.name}/T{s.tcp}/U{";".intercalate (s.udp.map showUL)}/{optS s.reject}/{optS s.padding}/{optN s.filterSize}"
+def showClient (c : EffClient) : String :=
+  s!"{c.name}/{c.network}/{if c.tcp then 1 else 0}{if c.udp then 1 else 0}/{optS c.padding}/{optN c.filterSize}"
+
+def showEff (e : Eff) : String :=
+  s!"ok S[{" ".intercalate (e.servers.map showServer)}] C[{" ".intercalate (e.clients.map showClient)}]"
+
+def stepC18 (c : Config) (line : String) : Config × String :=
+  match fields line with
+  | ["reset"] => ({}, "ok")
+  | "server" :: fs => ({ c with servers := c.servers ++ [serverOf (parseKV fs)] }, "ok")
+  | "tl" :: fs =>
+    let kv := parseKV fs
+    (onLastServer c fun s => { s with tcpListeners := s.tcpListeners ++
+      [{ network := getS kv "net", waitTimeout := getI kv "wt", waitBuf := getI kv "wb" }] }, "ok")
+  | "ul" :: fs =>
+    let kv := parseKV fs
+    (onLastServer c fun s => { s with udpListeners := s.udpListeners ++
+      [{ network := getS kv "net", batchMode := getS kv "bm", relayBatch := getI kv "rb", recvBatch := getI kv "sb",
+         sendCap := getI kv "cc", natTimeout := getI kv "nat" }] }, "ok")
+  | "client" :: fs => ({ c with clients := c.clients ++ [clientOf (parseKV fs)] }, "ok")
+  | "group" :: fs =>
+    let kv := parseKV fs
+    ({ c with groups := c.groups ++ [{ name := getS kv "name", tcpPolicy := getS kv "tp", tcpClients := getL kv "tc",
+                                       udpPolicy := getS kv "up", udpClients := getL kv "uc" }] }, "ok")
+  | "dns" :: fs =>
+    let kv := parseKV fs
+    ({ c with resolvers := c.resolvers ++ [{ name := getS kv "name", type := getS kv "type", addrValid := getB kv "addr",
+                                             tcpClient := getS kv "tc", udpClient := getS kv "uc" }] }, "ok")
+  | "router" :: fs =>
+    let kv := parseKV fs
+    ({ c with router := { c.router with defaultTCP := getS kv "dt", defaultUDP := getS kv "du",
+                                        domainSets := getL kv "ds", prefixSets := getL kv "ps" } }, "ok")
+  | "route" :: fs => ({ c with router := { c.router with routes := c.router.routes ++ [routeOf (parseKV fs)] } }, "ok")
+  | ["migrate"] => (c.migrate, "ok")
+  | ["decodes"] => (c, if c.decodes then "1" else "0")
+  | ["validate"] =>
+    match validate c with
+    | .error e => (c, s!"err {e}")
+    | .ok e => (c, showEff e)
+  | _ => (c, "bad-op")
+
+def main : IO Unit := Driver.run ({} : Config) stepC18
